@@ -202,7 +202,7 @@ package propertyf
 //@   ensures [C05] readBuf.buf.i >= p0
 //@   ensures [C05] validR(readBuf)
 //@   loop 0 modifies elems(st.VInfo), readBuf.buf.i, readBuf.depth
-//@   loop 0 invariant [C05] validR(readBuf) && readBuf.buf.i >= p0 && st != nil && len(st.VInfo) == e0
+//@   loop 0 invariant [C05] validR(readBuf) && readBuf.buf.i >= p0 && st != nil && len(st.VInfo) == e0 && 0 <= i0
 //@   safety [C05]
 //
 //@ func (*StatPropMsgBody).ReadBlock
